@@ -549,6 +549,15 @@ func zeroFwd(x interface{}) int {
 	return 0
 }
 
+// SCALEOUT control: the flags are initialised, the values computed, the scale of a distinct receiver never written
+func (e fixEvaluator) AddConst(op0 *rlwe.Ciphertext, k uint64, opOut *rlwe.Ciphertext) {
+	opOut.IsNTT = op0.IsNTT
+	e.r.AddScalar(op0.Value[0], k, opOut.Value[0])
+	if op0 != opOut {
+		opOut.Value[1].CopyLvl(op0.Level(), op0.Value[1])
+	}
+}
+
 func rnsBad(r *ring.Ring, v uint64) (rns ring.RNSScalar) {
 	rns = make(ring.RNSScalar, r.Level()+1)
 	for i := range rns {
